@@ -503,6 +503,7 @@ def main_check(prop, tier, base_seed, budget, max_runs, workers, verbose=False):
             op_kind_transitions=len(pairs),
             operations=dict(sorted(opsc.items())),
             verdicts={k[8:]: v for k, v in agg.items() if k.startswith("verdict:")},
+            queries={k[2:]: v for k, v in agg.items() if k.startswith("q:")},
             faults_fired=dict(sorted(faults.items())),
             probes=dict(sorted(probes.items())),
             violations_attributed_to_other_properties=dict(foreign),
